@@ -355,7 +355,8 @@ impl Parser {
         let (variant_name, _) = self.expect_identifier()?;
         if self.next_matches(&TokenEnum::LeftParen).is_some() {
             let mut fields = vec![];
-            if let Some(Token(TokenEnum::Identifier(_), _)) = self.tokens.peek() {
+            // (the first field can have any type, e.g. an array or a tuple)
+            if !self.peek(&TokenEnum::RightParen) {
                 let (ty, _) = self.parse_type()?;
                 fields.push(ty);
             }
